@@ -362,52 +362,11 @@ func r16cd(c *an.Ctx) {
 			c.Ob(key+"|state-used", st.call.Pos(), stateUsed(st), "the state returned by this device step is overwritten or dropped before anything reads it: what is reported afterwards is not the device's state")
 		}
 	}
+	r16f(c, all, helpers)
 	c.Rule("R16d", "a rollback step (a later step whose destination is the transition's source state) is terminal: no further device step is reachable after it", 4)
-	// the transition's source state: parameter `src` of functions with the Transitioner.Commit signature (evt, src, dst, args)
-	srcOf := func(fn *ssa.Function) *ssa.Parameter {
-		if len(fn.Params) == 5 && fn.Params[2].Type().String() == "string" && fn.Params[3].Type().String() == "string" && strings.HasPrefix(fn.Params[4].Type().String(), "map[") {
-			return fn.Params[2]
-		}
-		return nil
-	}
 	for _, s := range all {
 		fn := s.fn
-		src := srcOf(fn)
-		if src == nil {
-			continue
-		}
-		isFirst := true
-		for _, o := range all {
-			if o.fn == fn && o.call != s.call && an.Dominates(o.call, s.call) {
-				isFirst = false
-			}
-		}
-		if isFirst {
-			continue
-		}
-		fromSrc := false
-		if s.helper == nil {
-			fromSrc = dstParams(fn, s.call)[src]
-		} else {
-			// which parameters of the helper flow into the Dst of its steps; is the matching argument derived from src?
-			for _, hs := range stepsOf(s.helper, helpers) {
-				if hs.helper != nil {
-					continue
-				}
-				for p := range dstParams(s.helper, hs.call) {
-					for i, hp := range s.helper.Params {
-						if hp == p && i < len(s.call.Call.Args) {
-							for _, l := range an.BackSlice(s.call.Call.Args[i], an.SliceOpts{}) {
-								if l.Kind == "param" && l.Val == ssa.Value(src) {
-									fromSrc = true
-								}
-							}
-						}
-					}
-				}
-			}
-		}
-		if !fromSrc {
+		if !isRollbackStep(s, all, helpers) {
 			continue
 		}
 		c.Subject()
@@ -526,4 +485,129 @@ func r16e(c *an.Ctx) {
 		}
 		c.Ob("executor/executorcmd.(*ExecutorCommand_Transition).Commit|passthrough", fn.Pos(), ok, "Commit returns the transitioner's pair unchanged")
 	}
+}
+
+// r16f: the error of a forward device step must be able to reach the function's error result. A step
+// whose error is bound to a shadowing variable (or dropped) makes a failed step look like a success
+// to the caller whenever the reported state is not inspected as well.
+func r16f(c *an.Ctx, all []devStep, helpers map[*ssa.Function]bool) {
+	c.Rule("R16f", "the error of every forward device step reaches the error result of the function performing it", 9)
+	for i, st := range all {
+		fn := st.fn
+		res := fn.Signature.Results()
+		errIdx := -1
+		for k := 0; k < res.Len(); k++ {
+			if res.At(k).Type().String() == "error" {
+				errIdx = k
+			}
+		}
+		if errIdx < 0 {
+			continue
+		}
+		// the step's error
+		var errVal *ssa.Extract
+		blank := true
+		if st.call.Referrers() != nil {
+			for _, r := range *st.call.Referrers() {
+				if ex, ok := r.(*ssa.Extract); ok && ex.Type().String() == "error" {
+					errVal = ex
+					if ex.Referrers() != nil {
+						for _, rr := range *ex.Referrers() {
+							if _, dbg := rr.(*ssa.DebugRef); !dbg {
+								blank = false
+							}
+						}
+					}
+				}
+			}
+		}
+		tupleHasErr := false
+		if tup, ok := st.call.Type().(*types.Tuple); ok {
+			for k := 0; k < tup.Len(); k++ {
+				if tup.At(k).Type().String() == "error" {
+					tupleHasErr = true
+				}
+			}
+		}
+		if !tupleHasErr {
+			continue
+		}
+		// a step executed only after an earlier step of the same function failed to reach its destination
+		// (a rollback) keeps the forward step's error: its own error is deliberately dropped
+		if isRollbackStep(st, all, helpers) {
+			continue
+		}
+		c.Subject()
+		kind := "DoTransition"
+		if st.helper != nil {
+			kind = st.helper.Name()
+		}
+		key := fmt.Sprintf("%s|%s#%d|error-propagates", c.RelName(fn), kind, i+1)
+		ok := false
+		if errVal != nil && !blank {
+			// direct return of the call's tuple also counts
+			for _, ret := range an.Returns(fn) {
+				if v := an.RetVal(ret, errIdx); v != nil && an.DerivesFrom(v, errVal) {
+					ok = true
+				}
+			}
+		}
+		if st.call.Referrers() != nil {
+			for _, r := range *st.call.Referrers() {
+				if _, isRet := r.(*ssa.Return); isRet {
+					ok = true
+				}
+			}
+		}
+		c.Ob(key, st.call.Pos(), ok, "the error returned by this device step never reaches the function's error result (dropped, or bound to a variable that shadows the result): a failed step is reported to the caller without an error")
+	}
+}
+
+// srcParamOf: the transition's source state: parameter `src` of functions with the Transitioner.Commit signature (evt, src, dst, args).
+func srcParamOf(fn *ssa.Function) *ssa.Parameter {
+	if len(fn.Params) == 5 && fn.Params[2].Type().String() == "string" && fn.Params[3].Type().String() == "string" && strings.HasPrefix(fn.Params[4].Type().String(), "map[") {
+		return fn.Params[2]
+	}
+	return nil
+}
+
+// isRollbackStep: a later step of its function whose destination is the transition's source state.
+func isRollbackStep(s devStep, all []devStep, helpers map[*ssa.Function]bool) bool {
+	fn := s.fn
+	src := srcParamOf(fn)
+	if src == nil {
+		return false
+	}
+	isFirst := true
+	for _, o := range all {
+		if o.fn == fn && o.call != s.call && an.Dominates(o.call, s.call) {
+			isFirst = false
+		}
+	}
+	if isFirst {
+		return false
+	}
+	fromSrc := false
+	if s.helper == nil {
+		fromSrc = dstParams(fn, s.call)[src]
+	} else {
+		// which parameters of the helper flow into the Dst of its steps; is the matching argument derived from src?
+		for _, hs := range stepsOf(s.helper, helpers) {
+			if hs.helper != nil {
+				continue
+			}
+			for p := range dstParams(s.helper, hs.call) {
+				for i, hp := range s.helper.Params {
+					if hp == p && i < len(s.call.Call.Args) {
+						for _, l := range an.BackSlice(s.call.Call.Args[i], an.SliceOpts{}) {
+							if l.Kind == "param" && l.Val == ssa.Value(src) {
+								fromSrc = true
+							}
+						}
+					}
+				}
+			}
+		}
+	}
+	return fromSrc
 }
